@@ -7,5 +7,6 @@ CONSTANTS
   MaxLen = 6
   MaxDepth = 2
   CheckDev = {}
+  FreshOnly = FALSE
 INVARIANTS LawsHold LawWellFormed Emit
 CHECK_DEADLOCK FALSE
